@@ -150,6 +150,14 @@ def render_entry(e, salt):
     return render_obj(cls, ident, has_uri)
 
 
+def concrete(resp, key, args, kwargs):
+    """An ["echo", cls, ids] script answers exactly the URIs it is asked about."""
+    if resp[0] != "echo":
+        return resp
+    uris = list(dict.fromkeys(canon_args(key, args, kwargs).get("uris") or []))
+    return ["map", [[u, [[resp[1], i, True] for i in resp[2]]] for u in uris]]
+
+
 def render_resp(resp, salt=0):
     """Python object a scripted backend returns from ``future.get()`` (raise handled by caller)."""
     tag = resp[0]
@@ -269,7 +277,8 @@ class FakeBackend:
     def request(self, key, args, kwargs):
         self.log.append([self.idx, key, canon_args(key, args, kwargs)])
         self.ncalls += 1
-        return Future(self.spec["answers"].get(key, DEFAULT), self.salt + self.ncalls, self.returned)
+        return Future(concrete(self.spec["answers"].get(key, DEFAULT), key, args, kwargs), self.salt + self.ncalls,
+                      self.returned)
 
 
 class FakeMixer:
